@@ -48,11 +48,12 @@ Print Assumptions C08_data_writes.
    the region accessors of Model/FS.v; on the implementation it is checked by the guarded device. *)
 
 (** ** C08 over histories (writes): every device write of ANY history of interface calls lies inside the volume.
-    [pre]: sane geometry (regions in order, as [parse_header] computes them), the FAT serialises into its region, and the
-    entries of the sector-rounded FAT behind the last cluster are free — as every formatter leaves them.  Then whatever
-    start cluster a directory entry or a stale handle names, the follower never yields a cluster the volume does not have
-    (such an entry holds neither a link nor an end mark), the allocator never hands one out, and the FAT / root-directory
-    writes stay in their regions.  [C08_io_session] adds the dirty marking of the mount and the clean marking of close.
+    [pre]: sane geometry (regions in order, as [parse_header] computes them) and the FAT serialises into its region.
+    Whatever start cluster a directory entry or a stale handle names and whatever the FAT holds, the follower never yields
+    a cluster the volume does not have (D38: before the repair it did — this theorem needed the hypothesis that the entries
+    of the sector-rounded FAT behind the last cluster are free, and on a damaged image where they are not pyfatfs read and
+    wrote behind the end of the volume), the allocator never hands one out, and the FAT / root-directory writes stay in
+    their regions.  [C08_io_session] adds the dirty marking of the mount and the clean marking of close.
     Reads are not logged by the model: for them the guarded device of the harness is the only judge. *)
 From Coq Require Import Relations Lia FMapPositive.
 From PyFatV Require Import Proofs.Session Proofs.HdrState Proofs.Identity Proofs.FatBound Proofs.BootSafe Proofs.Inside.
@@ -90,7 +91,7 @@ Proof.
   split.
   { unfold pre. split; [right; left; vm_compute; reflexivity|]. split.
     - unfold geo. repeat (split; [vm_compute; first [reflexivity|discriminate]|]). vm_compute. discriminate.
-    - split; [apply tf_of_forallb; [vm_compute; discriminate|vm_compute; reflexivity]|vm_compute; discriminate]. }
+    - vm_compute; discriminate. }
   split; [vm_compute; reflexivity|]. split; [vm_compute; reflexivity|]. split; [vm_compute; reflexivity|].
   split; [vm_compute; reflexivity|]. split.
   - apply rt_trans with ex08_a; apply rt_step.
@@ -100,3 +101,12 @@ Proof.
       destruct E as (h & E). exact (ws_openbin _ _ _ _ _ _ E).
   - vm_compute. repeat constructor.
 Qed.
+
+(** the follower itself: whatever the FAT holds and wherever it is started, complete or not, it yields only clusters the
+    volume has (D38) *)
+Theorem C08_follower_inside : forall s c l ok, vt (ft s) -> chain s c = (l, ok) -> Forall (fun x => 2 <= x <= max_cluster s) l.
+Proof.
+  intros s c l ok Hv H. eapply Forall_impl; [|exact (chain_members_bounded _ _ _ _ H)]. intros x Hx. cbv beta in Hx.
+  destruct (vt_consts _ Hv) as (Hmin & _). lia.
+Qed.
+Print Assumptions C08_follower_inside.
